@@ -360,6 +360,37 @@ theorem gnat_size_list_abs (ctx : Ctx α D U) (hctx : CtxOK ctx) (hm : MetricOK 
   unfold gnatRun specRun
   rw [w2, ← h2.length_eq, List.length_map]
 
+/-- The refinement continues from ANY state satisfying the invariant (not only the empty one): this is what
+chains histories across `setDistanceFunction` (below), which changes the context. -/
+theorem gnat_size_list_abs_from (ctx : Ctx α D U) (hctx : CtxOK ctx) (hm : MetricOK ctx.dist)
+    {ord : Nat → Nat → List Nat} (hord : ∀ sz off, (ord sz off).Perm (List.range sz))
+    (g0 : Gnat α D) (hg0 : g0.Inv ctx) (m0 : List α) (h0 : (g0.list.map (fun e => e.val)).Perm m0)
+    (ops : List (Op α)) (us : List U) :
+    (gnatRun ctx ord ops g0 us).1.Inv ctx ∧ (gnatRun ctx ord ops g0 us).1.WF ctx.dist ∧
+    ((gnatRun ctx ord ops g0 us).1.list.map (fun e => e.val)).Perm (ops.foldl specStep m0) := by
+  obtain ⟨h1, h2⟩ := gnatRun_spec ctx hctx hm hord ops (g0, us) m0 hg0 h0
+  exact ⟨h1, (Gnat.Inv.wf ctx _ h1).1, h2⟩
+
+/-- **`setDistanceFunction` after elements were added** (GNAT: `if (tree_) rebuildDataStructure()` with the
+new function): whatever the old function was, the state satisfies the invariant for the NEW context
+(same parameters, new `dist`) and `list()` is a permutation of the old `list()` — so by
+`gnat_size_list_abs_from` and `nearestK_exact` all later answers are exact for the new function. -/
+theorem gnat_set_distance_function (ctx ctx' : Ctx α D U) (hctx' : CtxOK ctx') (hP : ctx'.P = ctx.P)
+    (g : Gnat α D) (hg : g.Inv ctx) (us : List U) :
+    (g.setDistanceFunction ctx' us).1.Inv ctx' ∧ (g.setDistanceFunction ctx' us).1.list.Perm g.list := by
+  have hids := Gnat.list_ids ctx g hg
+  obtain ⟨hp, hrem, h3⟩ := hg
+  unfold Gnat.setDistanceFunction
+  cases ht : g.tree with
+  | none =>
+    rw [ht] at h3
+    refine ⟨⟨by rw [hp, hP], hrem, ?_⟩, List.Perm.refl _⟩
+    rw [ht]
+    exact h3
+  | some t =>
+    have := Gnat.rebuild_spec ctx' hctx' g us (by rw [hp, hP]) hids
+    exact ⟨this.1, this.2.1⟩
+
 /-- **After any history every query equals brute force.**  Whatever sequence of operations built the
 structure, `nearestK` returns (as values) a k-nearest answer over the abstract multiset, `nearestR`
 exactly the held elements within the radius, both sorted — for every child order of the query — and
